@@ -1484,4 +1484,20 @@ example : (chaseHit {} 0 (writerWire {} .tcp { qDO0 with opt := some { udp := 12
     (normalised { qDO0 with opt := some { udp := 1232, doBit := true } } (setEdns0 {} false (some { udp := 1232, doBit := true })))).map
       (fun r => (r.fl.ad, r.answer)) = some (false, [.data .cname 9 20 20, .data .other 1 20 20]) := by decide
 
+/-! ### the AS112 empty zones -/
+
+/-- **An AS112 answer echoes the whole question** — name, type and CLASS as the
+client sent them — with ID and opcode, on the wire body as on the decoded one;
+through the edns handler every clause of the shaping theorems then applies. -/
+theorem as112_echoes (L Lu : Msg → Nat) (c : Consts) (cfg : Cfg) (proto : Proto) (q : Query) (r : Msg)
+    (h : serveDNS L Lu c cfg proto q (fun q' => some (as112Reply q')) = some r) :
+    Echoes q r ∨ BareReject q r :=
+  reply_echo L Lu c cfg proto q _
+    (by intro q' m hm; simp only [Option.some.injEq] at hm; subst hm; exact ⟨rfl, rfl, rfl, rfl⟩) r h
+
+-- non-vacuity: a CH-class query (the class rides in the opaque question) for a private reverse name
+example : ((serveDNS (msgLen true) (msgLen false) {} {} .udp
+    { qDO0 with question := { name := 7 + 4294967296 * 3, qtype := 12, qlen := 30 } } (fun q' => some (as112Reply q'))).map
+      (fun r => (r.rcode, r.question, r.fl.aa))) = some (3, some { name := 7 + 4294967296 * 3, qtype := 12, qlen := 30 }, true) := by decide
+
 end SdnsVerif.Props.C06
